@@ -9,6 +9,9 @@ The Rust is parsed by tools/rustmini_cnford.py; every function of `FUNS` is loca
 body is translated statement by statement.  A function outside the grammar falls back (that
 function only) to an alias of the model definition and is reported UNTRANSLATED.
 
+Elaboration guard: when the generated text is new it is elaborated once (`lake env lean`); a definition with an
+error falls back to its alias, status `… does not elaborate`.
+
 Conventions
   * straight-line code is executed symbolically (`let x = e;` is substituted, a mutable local is the
     Lean term of its current value); `if c { effects }` makes every assigned local `if c then new else old`.
@@ -37,6 +40,9 @@ Mapping table (trusted, kept small)
   v[i] ↦ v.getD i d (d = 0 / default / ops.zero / (ops.zero, 0) by element type)     v[i] = e ↦ v.set i e     v.push(e) ↦ v ++ [e]
   v.len() ↦ v.length     Vec::new(), Vec::with_capacity(n) ↦ []     (a..b).collect() ↦ List.range' a (b - a)
   it.map(|x| e) ↦ it.map (fun x => e)     it.zip(a..b) ↦ it.zip (List.range' a (b - a))     it.fold(i, |acc, x| e) ↦ it.foldl (fun acc x => e) i
+  it.enumerate() ↦ Tr.enumerate it (pairs (index, x))    it.filter(p) ↦ it.filter p    it.any/all(p) ↦ it.any/all p    it.rev() ↦ it.reverse
+  it.take(n)/skip(n) ↦ it.take n / it.drop n    it.position(p) ↦ it.findIdx? p    it.zip(other) ↦ it.zip other    it.min_by_key(k) ↦ Tr.minBy on the keys
+  o.map(f) ↦ o.map f    o.and_then(f) ↦ o.bind f    o.unwrap_or(d) ↦ o.getD d    o.map_or(d, f) ↦ o.elim d f    (closures may use nested tuple patterns)
   it.min_by(|p, q| c) ↦ Tr.minBy (fun p q => c) it  (first minimum)      a.cmp(b) ↦ compare a b      o.unwrap() ↦ o.getD default
   v.sort_by(|(c1, _), (c2, _)| c1.partial_cmp(c2).unwrap()) ↦ stableSort (fun a b => ops.le a.1 b.1) v   (stable; `ops.le a b` = "not Greater")
   min(a, b), max(a, b) ↦ min a b, max a b      usize `a - b` ↦ Nat subtraction (the Rust underflow panics in debug builds)
@@ -206,14 +212,20 @@ def closure(cl, cx, argtys):
             nm = "_"
         elif pat[0] == "ptuple" and len(pat[1]) == 2:
             nm = "p%d_" % (cx.sh["n"] + k)
-            parts = pair_parts(ty) or (None, None)
-            for q, proj, t in zip(pat[1], (".1", ".2"), parts):
+
+            def bind(q, term, t):
                 while q[0] == "pref":
                     q = q[1]
                 if q[0] == "pvar":
-                    sub.env[q[1]] = (nm + proj, t)
+                    sub.env[q[1]] = (term, t)
+                elif q[0] == "ptuple" and len(q[1]) == 2:
+                    parts = pair_parts(t) or (None, None)
+                    bind(q[1][0], term + ".1", parts[0])
+                    bind(q[1][1], term + ".2", parts[1])
                 elif q[0] != "pwild":
-                    raise Untranslatable("nested closure pattern")
+                    raise Untranslatable("closure pattern")
+
+            bind(pat, nm, ty)
         else:
             raise Untranslatable("closure pattern")
         names.append((nm, ty))
@@ -410,16 +422,59 @@ def E_mcall(a, cx):
         return "List.length %s" % paren(t), NAT
     if name == "label" and not args and ty == "Spec.Lit":
         return "Spec.Lit.var %s" % paren(t), NAT
+    if ty and ty.startswith("Option "):
+        inner = ty[7:]
+        inner = inner[1:-1] if inner.startswith("(") and inner.endswith(")") else inner
+        if name == "map" and len(args) == 1:
+            lam, rt = closure(args[0], cx, [inner])
+            return "Option.map (%s) %s" % (lam, paren(t)), ("Option (%s)" % rt if rt else None)
+        if name == "and_then" and len(args) == 1:
+            lam, rt = closure(args[0], cx, [inner])
+            return "Option.bind %s (%s)" % (paren(t), lam), rt
+        if name == "unwrap_or" and len(args) == 1:
+            return "Option.getD %s %s" % (paren(t), paren(E(args[0], cx)[0])), inner
+        if name == "map_or" and len(args) == 2:
+            lam, rt = closure(args[1], cx, [inner])
+            return "Option.elim %s %s (%s)" % (paren(t), paren(E(args[0], cx)[0]), lam), rt
+        if name in ("is_some", "is_none") and not args:
+            return "Option.%s %s" % ("isSome" if name == "is_some" else "isNone", paren(t)), BOOL
     if name == "map" and len(args) == 1:
         lam, rt = closure(args[0], cx, [elem(ty)])
         return "List.map (%s) %s" % (lam, paren(t)), (listof(rt) if rt else None)
+    if name == "enumerate" and not args and elem(ty):
+        return "Tr.enumerate %s" % paren(t), listof("Nat × %s" % (elem(ty) if "×" not in elem(ty) else "(" + elem(ty) + ")"))
+    if name == "filter" and len(args) == 1 and elem(ty):
+        lam, _ = closure(args[0], cx, [elem(ty)])
+        return "List.filter (%s) %s" % (lam, paren(t)), ty
+    if name in ("any", "all") and len(args) == 1 and elem(ty):
+        lam, _ = closure(args[0], cx, [elem(ty)])
+        return "List.%s %s (%s)" % (name, paren(t), lam), BOOL
+    if name == "position" and len(args) == 1 and elem(ty):
+        lam, _ = closure(args[0], cx, [elem(ty)])
+        return "List.findIdx? (%s) %s" % (lam, paren(t)), "Option Nat"
+    if name == "rev" and not args and elem(ty):
+        return "List.reverse %s" % paren(t), ty
+    if name in ("take", "skip") and len(args) == 1 and elem(ty):
+        return "List.%s %s %s" % ("take" if name == "take" else "drop", paren(E(args[0], cx)[0]), paren(t)), ty
+    if name in ("min_by_key", "max_by_key") and len(args) == 1 and elem(ty):
+        lam, kt = closure(args[0], cx, [elem(ty)])
+        if kt != NAT:
+            raise Untranslatable(name + " with a non-usize key")
+        cmp = "compare (k_ p) (k_ q)" if name == "min_by_key" else "compare (k_ q) (k_ p)"
+        # max_by_key returns the LAST maximum: not the mirror image of min_by_key
+        if name == "max_by_key":
+            raise Untranslatable("max_by_key (last maximum) is not in the mapping table")
+        return "(let k_ := %s; Tr.minBy (fun p q => %s) %s)" % (lam, cmp, paren(t)), "Option (%s)" % elem(ty)
     if name == "zip" and len(args) == 1:
         z = strip_refs(args[0])
         if z[0] == "bin" and z[1] == ".." and z[3] is not None:
             lo, hi = E(z[2], cx)[0], E(z[3], cx)[0]
             return "List.zip %s (List.range' %s (%s - %s))" % (paren(t), paren(lo), paren(hi), paren(lo)), \
                 listof("%s × Nat" % elem(ty))
-        raise Untranslatable("zip with a non-range")
+        z_t, z_ty = E(args[0], cx)
+        if elem(z_ty) and elem(ty):
+            return "List.zip %s %s" % (paren(t), paren(z_t)), listof("%s × %s" % (elem(ty), elem(z_ty)))
+        raise Untranslatable("zip with a value of unknown type")
     if name == "fold" and len(args) == 2:
         i, it = E(args[0], cx)
         lam, _ = closure(args[1], cx, [it, elem(ty)])
@@ -863,6 +918,69 @@ def write_if_changed(path, text):
         open(path, "w").write(text)
 
 
+def elaboration_errors(text):
+    """elaborate the candidate file once (`lake env lean`); returns [(line, message)] of the errors, None if lean cannot be run"""
+    import subprocess
+    lean_dir = os.path.join(ROOT, "lean")
+    tmp = OUT[:-5] + "_check.lean"
+    try:
+        open(tmp, "w").write(text)
+        subprocess.run(["lake", "build", "RsddModel.Lemmas.TieCnfOrdAux"], cwd=lean_dir, capture_output=True, text=True, timeout=900)   # imports up to date
+        r = subprocess.run(["lake", "env", "lean", os.path.relpath(tmp, lean_dir)], cwd=lean_dir, capture_output=True,
+                           text=True, timeout=900)
+    except Exception:  # noqa: BLE001
+        return None
+    finally:
+        try:
+            os.remove(tmp)
+        except OSError:
+            pass
+    errs = []
+    for m in re.finditer(r"^[^\n:]*:(\d+):(\d+): error:? ?(.*)$", r.stdout + r.stderr, re.M):
+        errs.append((int(m.group(1)), m.group(3).strip()))
+    if r.returncode != 0 and not errs:
+        return None
+    return errs
+
+
+def guarded_write(keys, blocks, status, fallback_of, footer):
+    """assemble HEADER + blocks + footer; when the text is new, elaborate it; a definition on an error line falls
+    back to its alias (status `… does not elaborate`), repeated until the file elaborates"""
+    for _round in range(len(keys) + 1):
+        text, ranges, line = HEADER, [], HEADER.count("\n") + 1
+        for k, b in zip(keys, blocks):
+            n = b.count("\n") + 1
+            ranges.append((line, line + n - 1, k))
+            text += b + "\n"
+            line += n
+        text += footer
+        old = open(OUT).read() if os.path.exists(OUT) else None
+        if old == text:
+            return
+        errs = elaboration_errors(text)
+        if not errs:
+            break
+        bad = {}
+        for ln, msg in errs:
+            for lo, hi, k in ranges:
+                if lo <= ln <= hi and k not in bad:
+                    bad[k] = msg
+        bad = {k: m for k, m in bad.items() if "UNTRANSLATED" not in status[k]}
+        if not bad:
+            break
+        for i, k in enumerate(keys):
+            if k in bad:
+                msg = "does not elaborate: " + bad[k][:160]
+                blocks[i] = fallback_of(k, msg)
+                status[k] = "UNTRANSLATED (translator route not available, tied by correspondence only): " + msg
+    write_if_changed(OUT, text)
+
+
+def fallback(f, msg):
+    return ("-- TRANSLATOR ROUTE NOT AVAILABLE for %s: %s\nabbrev %s := %s\n"
+            % (f.key, msg.replace("\n", " "), f.lean, f.model if f.model.startswith("fun") else "@" + f.model))
+
+
 def main():
     status, out = {}, []
     try:
@@ -880,10 +998,10 @@ def main():
             status[f.key] = "translated"
         except Exception as e:  # noqa: BLE001  (never crash: per-function fallback)
             msg = str(e) if isinstance(e, Untranslatable) else "%s: %s" % (type(e).__name__, e)
-            out.append("-- TRANSLATOR ROUTE NOT AVAILABLE for %s: %s\nabbrev %s := %s\n"
-                       % (f.key, msg.replace("\n", " "), f.lean, f.model if f.model.startswith("fun") else "@" + f.model))
+            out.append(fallback(f, msg))
             status[f.key] = "UNTRANSLATED (translator route not available, tied by correspondence only): %s" % msg
-    write_if_changed(OUT, HEADER + "\n".join(out) + "\nend Gen.CnfOrd\n")
+    byk = {f.key: f for f in FUNS}
+    guarded_write([f.key for f in FUNS], out, status, lambda k, msg: fallback(byk[k], msg), "end Gen.CnfOrd\n")
     return status
 
 
